@@ -227,6 +227,65 @@ def clause_b(repo, chk):
     chk.require_count("B-chains", 5)
 
 
+def clause_c(repo, chk):
+    """selection by resonance name visits every chain; fit-fraction accumulators are reset per integral"""
+    chk.rule("C-select", "DecayGroup.set_used_res visits every chain when it maps resonance names to chains (no break/continue/return in the loops over self.chains / the resonance map)")
+    chk.rule("C-accum", "every accumulator that FitFractions.append_int adds to is reset by init_res_table, and integral() calls init_res_table before accumulating (results do not depend on earlier calls)")
+    fn = repo.fn("%s::DecayGroup.set_used_res" % CORE)
+    loops = [n for n in walk_local(fn.node) if isinstance(n, ast.For)]
+    n_chain_loops = 0
+    for lp in loops:
+        it = norm_text(lp.iter)
+        if "self.chains" in it or "res_map" in it:
+            n_chain_loops += 1
+            esc = [x for st in lp.body for x in ast.walk(st) if isinstance(x, (ast.Break, ast.Continue, ast.Return))]
+            # an escape that belongs to a nested loop is that loop's business
+            own = []
+            for x in esc:
+                inner = [l2 for l2 in ast.walk(lp) if isinstance(l2, ast.For) and l2 is not lp and any(y is x for y in ast.walk(l2))]
+                if not inner:
+                    own.append(x)
+            chk.instance("C-select", "set_used_res: loop `for %s in %s` runs over all elements (no break/continue): %s" % (norm_text(lp.target), it, not own))
+            if own:
+                chk.violation("C-select", fn.key, "loop:%s" % it, "the loop over `%s` is left early (%s at line %d): a resonance that occurs in several chains selects only the first" % (it, type(own[0]).__name__.lower(), own[0].lineno), file=CORE, line=own[0].lineno)
+    if n_chain_loops < 2:
+        raise AnalysisError("set_used_res: loops over self.chains / res_map not found")
+    # accumulators
+    cls = repo.cls("%s::FitFractions" % FF)
+    app, ini, integ = cls.methods.get("append_int"), cls.methods.get("init_res_table"), cls.methods.get("integral")
+    if not (app and ini and integ):
+        raise AnalysisError("FitFractions.append_int / init_res_table / integral vanished")
+    acc = set()
+    for n in walk_local(app.node):
+        if isinstance(n, ast.AugAssign):
+            t = n.target
+            base = t.value if isinstance(t, ast.Subscript) else t
+            if isinstance(base, ast.Attribute) and isinstance(base.value, ast.Name) and base.value.id == "self":
+                acc.add(base.attr)
+        if isinstance(n, ast.Assign) and isinstance(n.targets[0], ast.Subscript):
+            base = n.targets[0].value
+            if isinstance(base, ast.Attribute) and isinstance(base.value, ast.Name) and base.value.id == "self" and norm_text(n.targets[0]) in norm_text(n.value):
+                acc.add(base.attr)
+    reset = set()
+    for n in walk_local(ini.node):
+        if isinstance(n, ast.Assign):
+            t = n.targets[0]
+            base = t.value if isinstance(t, ast.Subscript) else t
+            if isinstance(base, ast.Attribute) and isinstance(base.value, ast.Name) and base.value.id == "self":
+                reset.add(base.attr)
+    first_calls = [norm_text(x.func) for st in integ.node.body for x in ast.walk(st) if isinstance(x, ast.Call) and isinstance(x.func, ast.Attribute) and isinstance(x.func.value, ast.Name) and x.func.value.id == "self"]
+    order_ok = "self.init_res_table" in first_calls and "self.append_int" in first_calls and first_calls.index("self.init_res_table") < first_calls.index("self.append_int")
+    chk.instance("C-accum", "append_int accumulates into %s; init_res_table resets %s; integral resets first: %s" % (sorted(acc), sorted(reset), order_ok))
+    if len(acc) < 4:
+        raise AnalysisError("FitFractions.append_int: only %d accumulators recognised" % len(acc))
+    missing = sorted(acc - reset)
+    if missing:
+        chk.violation("C-accum", ini.key, "unreset:" + ",".join(missing), "accumulator(s) %s are added to by append_int but not reset by init_res_table: a second integral() on the same object adds to the previous totals" % missing, file=FF, line=ini.lineno)
+    if not order_ok:
+        chk.violation("C-accum", integ.key, "order", "integral() must call init_res_table() before append_int()", file=FF, line=integ.lineno)
+
+
 def run(repo, chk, tier):
     clause_a(repo, chk)
     clause_b(repo, chk)
+    clause_c(repo, chk)
